@@ -104,6 +104,12 @@ Section Wrap.
     0 <= p_m2 priv -> 0 < s -> 0 < t ->
     range_check G gmul gone ginv geqb g h Hsh pub a b s t (generate_response priv s t) = true.
   Proof. intros (A & C & O & I) R. apply (range_complete_l G gmul gone ginv geqb R A C O I). Qed.
+
+  Lemma range_soundness_refuted_w : grp -> (forall a, geqb a a = true) ->
+    forall n v a b s t r, 0 < n -> gpow G gmul gone ginv g n = gone ->
+    exists pub resp, k_c G (pub_com G pub) = commit G gmul gone ginv g h v r /\
+                     range_check G gmul gone ginv geqb g h Hsh pub a b s t resp = true.
+  Proof. intros (A & C & O & I) R. apply (range_soundness_refuted_l G gmul gone ginv geqb R A C O I). Qed.
 End Wrap.
 
 (* ---- the toy instances meet the hypotheses -------------------------------------------------------- *)
